@@ -1,4 +1,6 @@
 mod client;
+mod daemon;
+mod wire;
 mod rng;
 mod util;
 mod vclock;
@@ -10,12 +12,16 @@ fn exec_line(line: &str) -> String {
     let toks: Vec<&str> = line.split_whitespace().collect();
     match toks.first().copied() {
         Some("client") => client::exec(&toks),
+        Some("client2") => client::exec2(&toks),
+        Some("extract") => daemon::exec_extract(&toks),
+        Some("upd") => daemon::exec_upd(line),
         _ => "bad-op".into(),
     }
 }
 
 fn main() {
     util::quiet_panics();
+    wire::self_test();
     let args: Vec<String> = std::env::args().collect();
     let out = std::io::stdout();
     let mut out = std::io::BufWriter::new(out.lock());
@@ -39,6 +45,25 @@ fn main() {
             for g in client::grid() { emit(g); }
             let mut rng = rng::Rng::new(seed);
             for _ in 0..count { emit(client::gen_case(&mut rng)); }
+        }
+        Some("client2") => {
+            let seed: u64 = args[2].parse().unwrap();
+            let count: usize = args[3].parse().unwrap();
+            let mut rng = rng::Rng::new(seed ^ 0x5151);
+            for _ in 0..count { emit(client::gen_case2(&mut rng)); }
+        }
+        Some("extract") => {
+            let seed: u64 = args[2].parse().unwrap();
+            let count: usize = args[3].parse().unwrap();
+            let mut rng = rng::Rng::new(seed);
+            for _ in 0..count { emit(daemon::gen_extract(&mut rng)); }
+        }
+        Some("leapgrid") => { for g in daemon::leap_grid() { emit(g); } }
+        Some("upd") => {
+            let seed: u64 = args[2].parse().unwrap();
+            let count: usize = args[3].parse().unwrap();
+            let mut rng = rng::Rng::new(seed);
+            for _ in 0..count { emit(daemon::gen_upd(&mut rng)); }
         }
         _ => { eprintln!("usage: cbharness <client|replay> ..."); std::process::exit(2); }
     }
